@@ -662,3 +662,219 @@ Proof.
   - intros _. exists (CStr abc). split; [now left|discriminate].
   - intros _. exists (CInt (-2)). split; [now left|discriminate].
 Qed.
+
+(** * Groups: every row is folded into exactly one group *)
+Lemma bytes_eqb_eq : forall a b, bytes_eqb a b = true <-> a = b.
+Proof.
+  induction a as [|x a IH]; intros [|y b]; cbn; split; try discriminate; try reflexivity.
+  - rewrite andb_true_iff, N.eqb_eq, IH. intros [-> ->]. reflexivity.
+  - intros [= -> ->]. rewrite andb_true_iff, N.eqb_eq, IH. auto.
+Qed.
+
+Lemma list_eqb_eq : forall {A} (e : A -> A -> bool), (forall a b, e a b = true <-> a = b) ->
+  forall a b, list_eqb e a b = true <-> a = b.
+Proof.
+  intros A e He. induction a as [|x a IH]; intros [|y b]; cbn; split; try discriminate; try reflexivity.
+  - rewrite andb_true_iff, He, IH. intros [-> ->]. reflexivity.
+  - intros [= -> ->]. rewrite andb_true_iff, He, IH. auto.
+Qed.
+
+Lemma gkey_eqb_eq : forall a b : gkey, gkey_eqb a b = true <-> a = b.
+Proof.
+  intros [[x|] ga] [[y|] gb]; unfold gkey_eqb; cbn [fst snd];
+    rewrite ?andb_true_iff, ?(list_eqb_eq bytes_eqb bytes_eqb_eq), ?Z.eqb_eq; split;
+    try (intros [H1 H2]; congruence); try (intros [= ]; subst; auto); try discriminate.
+Qed.
+
+Lemma gkey_eqb_refl : forall a, gkey_eqb a a = true.
+Proof. intros a. now apply gkey_eqb_eq. Qed.
+
+Lemma gkey_eqb_neq : forall a b, a <> b -> gkey_eqb a b = false.
+Proof. intros a b H. destruct (gkey_eqb a b) eqn:E; [apply gkey_eqb_eq in E; contradiction|reflexivity]. Qed.
+
+Section Assoc.
+  Context {V : Type}.
+
+  Fixpoint lookup (k : gkey) (st : list (gkey * V)) : option V :=
+    match st with
+    | [] => None
+    | (k', v) :: r => if gkey_eqb k k' then Some v else lookup k r
+    end.
+
+  Lemma lookup_upsert_same : forall k f st, lookup k (upsert k f st) = Some (f (lookup k st)).
+  Proof.
+    intros k f. induction st as [|[k' v] r IH]; cbn.
+    - now rewrite gkey_eqb_refl.
+    - destruct (gkey_eqb k k') eqn:E; cbn; rewrite E; [reflexivity|exact IH].
+  Qed.
+
+  Lemma lookup_upsert_other : forall k k' f st, k <> k' -> lookup k' (upsert k f st) = lookup k' st.
+  Proof.
+    intros k k' f st N. induction st as [|[k0 v] r IH]; cbn.
+    - rewrite (gkey_eqb_neq k' k) by congruence. reflexivity.
+    - destruct (gkey_eqb k k0) eqn:E; cbn.
+      + apply gkey_eqb_eq in E. subst k0. rewrite (gkey_eqb_neq k' k) by congruence. reflexivity.
+      + destruct (gkey_eqb k' k0); [reflexivity|exact IH].
+  Qed.
+
+  Lemma upsert_keys_in : forall k f (st : list (gkey * V)) k', In k' (map fst (upsert k f st)) <-> k' = k \/ In k' (map fst st).
+  Proof.
+    intros k f st k'. induction st as [|[k0 v] r IH]; cbn.
+    - intuition.
+    - destruct (gkey_eqb k k0) eqn:E; cbn.
+      + apply gkey_eqb_eq in E. subst. intuition.
+      + rewrite IH. intuition.
+  Qed.
+
+  Lemma upsert_nodup : forall k f (st : list (gkey * V)), NoDup (map fst st) -> NoDup (map fst (upsert k f st)).
+  Proof.
+    intros k f st. induction st as [|[k0 v] r IH]; intros ND; cbn.
+    - repeat constructor. intros [].
+    - inversion ND as [|? ? Hn ND']; subst. destruct (gkey_eqb k k0) eqn:E; cbn.
+      + constructor; assumption.
+      + constructor; [|auto]. rewrite upsert_keys_in. intros [->|H]; [|contradiction].
+        rewrite gkey_eqb_refl in E. discriminate.
+  Qed.
+
+  Lemma lookup_in_keys : forall k (st : list (gkey * V)), lookup k st <> None <-> In k (map fst st).
+  Proof.
+    intros k st. induction st as [|[k0 v] r IH]; cbn; [intuition|].
+    destruct (gkey_eqb k k0) eqn:E.
+    - apply gkey_eqb_eq in E. subst. split; [auto|discriminate].
+    - rewrite IH. split; [auto|]. intros [->|H]; [rewrite gkey_eqb_refl in E; discriminate|exact H].
+  Qed.
+End Assoc.
+
+(** the rows of group [k] *)
+Definition sel (p : plan) (k : gkey) (rs : list crow) : list crow :=
+  filter (fun r => gkey_eqb (row_key p r) k) rs.
+
+Lemma sink_lookup : forall p rs st k,
+  lookup k (fold_left (sink_step p) rs st) =
+  match sel p k rs with
+  | [] => lookup k st
+  | l => Some (fold_left (upd_all (p_metrics p)) l
+                 (match lookup k st with Some a => a | None => init_all (p_metrics p) end))
+  end.
+Proof.
+  intros p rs. induction rs as [|r rs IH]; intros st k; cbn [fold_left sel filter]; [reflexivity|].
+  fold (sel p k rs). rewrite IH. unfold sink_step.
+  destruct (gkey_eqb (row_key p r) k) eqn:E.
+  - apply gkey_eqb_eq in E. subst k. rewrite lookup_upsert_same.
+    destruct (sel p (row_key p r) rs); reflexivity.
+  - assert (Hne : row_key p r <> k).
+    { intros Heq. rewrite Heq, gkey_eqb_refl in E. discriminate. }
+    rewrite lookup_upsert_other by exact Hne. reflexivity.
+Qed.
+
+Lemma sink_nodup : forall p rs st, NoDup (map fst st) -> NoDup (map fst (fold_left (sink_step p) rs st)).
+Proof.
+  intros p rs. induction rs as [|r rs IH]; intros st ND; cbn; [exact ND|].
+  apply IH. unfold sink_step. now apply upsert_nodup.
+Qed.
+
+(** Every row of a flow lands in exactly one group (its key), every group of the sink is
+    the fold of exactly the rows with that key, and keys are not repeated. *)
+Theorem each_event_one_group : forall p rs,
+  NoDup (map fst (sink_rows p rs))
+  /\ (forall k, lookup k (sink_rows p rs) =
+                match sel p k rs with
+                | [] => None
+                | l => Some (fold_left (upd_all (p_metrics p)) l (init_all (p_metrics p)))
+                end)
+  /\ (forall r, In r rs -> In r (sel p (row_key p r) rs)
+                           /\ forall k, k <> row_key p r -> ~ In r (sel p k rs))
+  /\ (forall r, In r rs -> In (row_key p r) (map fst (sink_rows p rs))).
+Proof.
+  intros p rs. unfold sink_rows.
+  assert (L : forall k, lookup k (fold_left (sink_step p) rs []) =
+                match sel p k rs with
+                | [] => None
+                | l => Some (fold_left (upd_all (p_metrics p)) l (init_all (p_metrics p)))
+                end).
+  { intros k. rewrite sink_lookup. reflexivity. }
+  split; [apply sink_nodup; constructor|]. split; [exact L|]. split.
+  - intros r Hr. split.
+    + unfold sel. apply filter_In. split; [exact Hr|apply gkey_eqb_refl].
+    + intros k Nk Hin. unfold sel in Hin. apply filter_In in Hin. destruct Hin as [_ E].
+      apply gkey_eqb_eq in E. congruence.
+  - intros r Hr. apply lookup_in_keys. rewrite L.
+    assert (Hs : In r (sel p (row_key p r) rs)).
+    { unfold sel. apply filter_In. split; [exact Hr|apply gkey_eqb_refl]. }
+    destruct (sel p (row_key p r) rs); [contradiction|discriminate].
+Qed.
+
+(** * LIMIT / OFFSET only select groups *)
+Theorem limit_caps_groups : forall {V} p limit offset (groups : list (gkey * V)),
+  let out := emit_groups p limit offset groups in
+  (forall e, In e out -> In e groups)
+  /\ (exists sorted, Permutation sorted groups
+        /\ out = take_opt limit (match offset with Some o => dropN o | None => fun x => x end sorted))
+  /\ (forall n, limit = Some n ->
+        N.of_nat (length out) = N.min n (N.of_nat (length groups) - match offset with Some o => o | None => 0%N end)).
+Proof.
+  intros V p limit offset groups out. subst out. unfold emit_groups.
+  set (cmp := fun a b : gkey * V => lex_cmp (out_key p (fst a)) (out_key p (fst b))).
+  pose proof (sort_by_perm cmp groups) as P.
+  split; [|split].
+  - intros e He. eapply Permutation_in; [exact P|].
+    assert (Hd : forall (l : list (gkey * V)) o x, In x (dropN o l) -> In x l).
+    { intros l o x Hx. rewrite dropN_skipn in Hx. rewrite <- (firstn_skipn (N.to_nat o) l).
+      apply in_or_app. now right. }
+    assert (Ht : forall (l : list (gkey * V)) o x, In x (takeN o l) -> In x l).
+    { intros l o x Hx. rewrite takeN_firstn in Hx. rewrite <- (firstn_skipn (N.to_nat o) l).
+      apply in_or_app. now left. }
+    destruct limit as [n|], offset as [o|]; cbn [take_opt] in He; eauto.
+  - exists (sort_by cmp groups). split; [exact P|reflexivity].
+  - intros n ->. cbn [take_opt]. rewrite takeN_length.
+    pose proof (Permutation_length P) as HL.
+    destruct offset as [o|].
+    + rewrite dropN_length. rewrite HL. reflexivity.
+    + rewrite N.sub_0_r, HL. reflexivity.
+Qed.
+
+(** * The known class of the partition law *)
+Definition is_cnull (c : cell) : bool := match c with CNull => true | _ => false end.
+
+(** MIN, and some part consists of null cells only (its aggregator is never updated) *)
+Definition MinEmptyPartial (k : mkind) (parts : list (list cell)) : Prop :=
+  k = MMin /\ existsb (forallb is_cnull) parts = true.
+
+Lemma not_known_touches : forall k parts, ~ MinEmptyPartial k parts -> Forall (touches k) parts.
+Proof.
+  intros k parts H. apply Forall_forall. intros l Hl Hk.
+  destruct (forallb is_cnull l) eqn:E.
+  - exfalso. apply H. split; [exact Hk|]. apply existsb_exists. exists l. split; assumption.
+  - clear - E. induction l as [|c l IH]; [discriminate|]. cbn in E. apply andb_false_iff in E.
+    destruct c; cbn in E.
+    + exists (CInt z). split; [now left|discriminate].
+    + destruct E as [E|E]; [discriminate|]. destruct (IH E) as (c & Hc & Nc). exists c. split; [now right|exact Nc].
+    + exists (CStr s). split; [now left|discriminate].
+Qed.
+
+Theorem agg_partition_outside_known : forall k p ps,
+  Forall cell_ok p -> Forall (Forall cell_ok) ps ->
+  ~ MinEmptyPartial k (p :: ps) ->
+  finalize (merge_parts k p ps) = finalize (part k (p ++ concat ps)).
+Proof.
+  intros k p ps Fp Fps H. apply not_known_touches in H. inversion H; subst.
+  apply agg_partition_final; assumption.
+Qed.
+
+Example min_empty_partial_witness :
+  MinEmptyPartial MMin [[CNull]; [CStr abc]]
+  /\ finalize (merge_parts MMin [CNull] [[CStr abc]]) = FStr []
+  /\ finalize (part MMin ([CNull] ++ concat [[CStr abc]])) = FStr abc.
+Proof. vm_compute. auto. Qed.
+
+Theorem agg_merge_assoc_comm : forall k a b c, wf k a -> wf k b -> wf k c ->
+  merge_state a b = merge_state b a
+  /\ merge_state (merge_state a b) c = merge_state a (merge_state b c)
+  /\ merge_state (agg_init k) a = a.
+Proof.
+  intros k a b c Wa Wb Wc. split; [now apply (merge_state_comm k)|].
+  split; [now apply (merge_state_assoc k)|now apply merge_init_l].
+Qed.
+
+Example agg_merge_assoc_comm_nonvacuous : forall k l, Forall cell_ok l -> wf k (run k l).
+Proof. exact run_wf. Qed.
